@@ -115,21 +115,24 @@ def _restart_step(k1, k2, k3, u1, u2, u3, slack, s1, s2, s3, f1, f2, f3, sub, ne
 OPS = ["append", "expunge", "store", "copy", "pack", "deliver", "create", "delete_leaf", "rename", "subscribe"]
 
 
-def crash_step(c: int, d1: bool, d2: bool, d3: bool, s: int) -> bool:
+def crash_step(c: int, d1: bool, d2: bool, d3: bool, s: int, follow: bool, marked: bool) -> bool:
     """
     pre: 0 <= c <= core.PARAMS["cmax"] and 1 <= s <= 3
+    pre: follow == core.PARAMS.get("follow", False) and marked == core.PARAMS.get("marked", False)
+    pre: core.PARAMS["op"] in ("store", "copy") or s == 1
+    pre: core.PARAMS["op"] == "expunge" or not (d1 or d2 or d3)
     post: _
     """
     return held(_crash_step, locals())
 
 
-def _crash_step(c, d1, d2, d3, s):
+def _crash_step(c, d1, d2, d3, s, follow, marked):
     op = core.PARAMS["op"]
     tag = f"crash_step[{op}]"
     keys, uids = [2, 5, 6], [3, 4, 8]
     dels = {k for k, d in zip(keys, (d1, d2, d3)) if d} if op in ("expunge",) else set()
     srv = env.new_world(db="sqlite")
-    inbox = env.make_mailbox(srv, "inbox", keys, uids, {"Seen": set(keys), "Deleted": dels}, next_uid=10, uid_vv=1, contents=CONTENT[:3], mtimes=MT[:3])
+    inbox = env.make_mailbox(srv, "inbox", keys, uids, {"Seen": set(keys), "Deleted": dels}, next_uid=10, uid_vv=1, contents=CONTENT[:3], mtimes=MT[:3], attributes={r"\Marked" if marked else r"\Unmarked", r"\HasNoChildren"})
     other = env.make_mailbox(srv, "other", [1], [1], {"Seen": {1}}, next_uid=2, uid_vv=2, contents=[b"o0"], mtimes=[50])
     srv.uid_vv = 2
     run(srv.db.execute("UPDATE user_server SET uid_vv = ?", ("2",), commit=True))
@@ -198,6 +201,10 @@ def _crash_step(c, d1, d2, d3, s):
             other.subscribed = True
             st, t = loop.run_coro(other.commit_to_db())
             acked = ("subscribe", result_of(t))
+        if follow and not TREE.crashed and op in ("append", "expunge", "store", "copy", "pack", "deliver"):
+            # the command was acknowledged; the management task's next poll / pre-command resync runs, then the kill
+            for mbx in (inbox, other):
+                loop.run_coro(mbx.check_new_msgs_and_flags())
     except Crash:
         crashed = True
     if TREE.crashed:
@@ -439,6 +446,8 @@ def jobs_crash(tier):
     T = 300 if q else 1200
     js = []
     for op in OPS:
-        js.append({"name": f"crash_step[{op}]", "module": "harness.persist", "fn": "crash_step", "params": {"op": op, "prop": "C11", "cmax": 14 if q else 30}, "timeout": T, "per_path": 90, "unblock": UNBLOCK})
+        variants = [(False, False), (True, False), (True, True)] if op in ("append", "expunge", "store", "copy", "pack", "deliver") else [(False, False)]
+        for follow, marked in variants:
+            js.append({"name": f"crash_step[{op},follow={int(follow)},marked={int(marked)}]", "module": "harness.persist", "fn": "crash_step", "params": {"op": op, "prop": "C11", "cmax": 14 if q else 30, "follow": follow, "marked": marked}, "timeout": T, "per_path": 90, "unblock": UNBLOCK})
     js.append({"name": "first_start", "module": "harness.persist", "fn": "first_start", "params": {"prop": "C11"}, "timeout": T, "per_path": 90, "unblock": UNBLOCK})
     return js
